@@ -332,7 +332,7 @@ class CodeGenerator(nunavut._generators.AbstractGenerator):
         if self._post_processors is not None:
             for pp in self._post_processors:
                 if isinstance(pp, nunavut._postprocessors.LinePostProcessor):
-                    line_pps.append(pp)
+                    line_pps.append(pp.for_new_file())
                 elif isinstance(pp, nunavut._postprocessors.FilePostProcessor):
                     file_pps.append(pp)
                 else:
@@ -993,6 +993,7 @@ class SupportGenerator(CodeGenerator):
         target: pathlib.Path,
         line_pps: typing.List["nunavut._postprocessors.LinePostProcessor"],
     ) -> None:
+        line_pps = [line_pp.for_new_file() for line_pp in line_pps]
         with open(str(target), "w", encoding="utf-8", newline="") as target_file:
             with open(str(resource), "r", encoding="utf-8", newline="\n") as resource_file:
                 for resource_line in resource_file:
